@@ -27,6 +27,7 @@ type childScript struct {
 	Fifo      string `json:"fifo"`
 	Go        string `json:"go"` // FIFO on which the parent says "go" once the answered calls have returned
 	IgnoreInt bool   `json:"ignoreInt"`
+	Init      string `json:"init"`   // how the handshake goes: "" answers initialize | silent (reads on, never answers) | error | garbage | exit (leaves when initialize arrives)
 	Helper    int    `json:"helper"` // > 0: before anything else start a helper process (this binary again, sleeping that many seconds) that inherits this process' stderr and is left behind
 }
 
@@ -136,6 +137,21 @@ func childMain(raw string) {
 		}
 		if len(m.ID) == 0 {
 			continue // notification
+		}
+		if m.Method == "initialize" && sc.Init != "" {
+			mark("init")
+			switch sc.Init {
+			case "silent":
+				continue
+			case "error":
+				out.Write(append([]byte(`{"jsonrpc":"2.0","id":`+string(m.ID)+`,"error":{"code":-32603,"message":"injected"}}`), '\n'))
+				continue
+			case "garbage":
+				out.Write(append([]byte(`{"jsonrpc":"2.0","id":`+string(m.ID)+`,"result":"garbage"}`), '\n'))
+				continue
+			case "exit":
+				os.Exit(0)
+			}
 		}
 		if m.Method == "initialize" {
 			out.Write(append([]byte(`{"jsonrpc":"2.0","id":`+string(m.ID)+`,"result":`+initResult+`}`), '\n'))
